@@ -53,6 +53,8 @@ def run(pid, cfg, repo, verif):
         return run_lemmas(verif, out, "lemma_loops.rs", "while rule for MUL and DIV over the per-pass contracts, rank => bounded return, MUL word-count bound (spec-only, no repository code)")
     if cfg == "lemmas_compose":
         return run_lemmas(verif, out, "lemma_compose.rs", "interrupt entry ; register-preserving handler ; RETI restores registers/flags/SP/PC (over the entry and RETI contracts); address counter = concatenation offset; relative offset lands on its target (spec-only, no repository code)")
+    if cfg == "lemmas_induct":
+        return run_lemmas(verif, out, "lemma_induct.rs", "the 'by induction after every history' step: inductive invariant => invariant of every reachable state and at every call of any history (C13/C14/C05), and single-edge halt absorption => fixpoint of any number of clock edges (C05); abstract state/operation, hypotheses are the shapes of the per-call Kani obligations (spec-only, no repository code)")
     if cfg == "lemmas_history":
         return run_lemmas(verif, out, "lemma_history.rs", "C10 'read back until overwritten' and last-write-wins as one induction over any history of bus operations, from the per-call RAM postcondition/frame clauses C10.W.ram.frame, C10.W.io.ram-untouched, C10.R.pure, C10.I.set.frame, C10.F.* (spec-only, no repository code)")
     if cfg != "c08":
